@@ -37,10 +37,17 @@ def slice_py(ae, heap):
     return slice(heap.val(ae['lo']), heap.val(ae['hi']), heap.val(ae['st']))
 
 
+def lit_val(v, heap):
+    """a literal argument; rationals stand for float literals (1.0 is VFrac(1, 1))"""
+    if v['k'] == 'frac':
+        return v['n'] / v['d']
+    return heap.val(v)
+
+
 def build_arg(ae, heap):
     a = ae['a']
     if a == 'lit':
-        return heap.val(ae['v'])
+        return lit_val(ae['v'], heap)
     if a == 't':
         return build_t(ae['ops'], heap)
     if a == 'spec':
@@ -91,7 +98,7 @@ class Failed(Exception):
 def direct_arg(ae, heap, target):
     a = ae['a']
     if a == 'lit':
-        return heap.val(ae['v'])
+        return lit_val(ae['v'], heap)
     if a in ('t', 'spec'):
         return direct(ae['ops'], heap, target, target)
     if a == 'slice':
